@@ -5,7 +5,7 @@
 From Coq Require Import ZArith List Lia.
 From EV Require Import Res Arr MapStream MapStreamSpec MapStreamBase MapStreamFixed MapStreamGen MapStreamRefuted MapHelpers
   MapIndexedBase MapIndexedKernel MapIndexedDriver MapIndexedHelper MapStreamOrig MapStreamSpan
-  MapHistorySpec MapHistory MapHistoryProofs MapCallForms MapCallFormsProofs.
+  MapHistorySpec MapHistory MapHistoryProofs MapCallForms MapCallFormsProofs MapCompose.
 Import ListNotations.
 Open Scope Z_scope.
 
@@ -391,3 +391,38 @@ Example indexed_stream_call_hyps :   (* 3-row map, a 53-byte entry (> 8 bytes pe
   fitb di dv (-1) [0; -1; 2] (4 * 16) = true /\
   indexed_stream_call_eval 20 di dv [0; -1; 2] None None None 4 16 = Ok ([0; 53; 53; 53], repeat 97 53).
 Proof. exact indexed_call_eval_witness. Qed.
+
+(* ---- algebra of the mapping (Proofs/MapCompose.v) --------------------------------------------
+   full, no precondition: mapping through m1 and then through m2 is mapping once through the composed
+   map  compose_maps inv m1 m2 = m2 mapped through m1 with the marker as filler  (a row is empty iff
+   either step maps it to the marker); the mapping is row-wise (length, append). *)
+Theorem map_spec_compose : forall (A:Type) (e:A) data inv m1 m2,
+  map_spec e (map_spec e data inv m1) inv m2 = map_spec e data inv (compose_maps inv m1 m2).
+Proof. exact @map_spec_compose_pf. Qed.
+Print Assumptions map_spec_compose.
+
+Theorem map_spec_rowwise : forall (A:Type) (e:A) data inv m1 m2,
+  length (map_spec e data inv m1) = length m1 /\
+  map_spec e data inv (m1 ++ m2) = map_spec e data inv m1 ++ map_spec e data inv m2.
+Proof. intros. split; [apply map_spec_length_pf|apply map_spec_app_pf]. Qed.
+Print Assumptions map_spec_rowwise.
+
+(* full: the repaired streaming driver run twice (any chunk sizes, in-range maps in any order) yields what
+   one run through the composed map yields; the composed map is itself in range (compose_in_range) *)
+Theorem map_stream_twice :
+  forall (A:Type) (zfill empty:A) (data:list A) (inv:Z) (m1 m2:list Z) (cs1 cs2 cs3:Z) (f1 f2 f3:nat),
+  1 <= cs1 -> 1 <= cs2 -> 1 <= cs3 ->
+  in_range_map (len data) inv m1 -> in_range_map (len m1) inv m2 ->
+  (f1 >= length m1 + 1)%nat -> (f2 >= length m2 + 1)%nat -> (f3 >= length m2 + 1)%nat ->
+  exists d1, ordered_map_valid_stream zfill empty f1 Fixed data m1 inv cs1 = Ok d1 /\
+             ordered_map_valid_stream zfill empty f2 Fixed d1 m2 inv cs2
+             = ordered_map_valid_stream zfill empty f3 Fixed data (compose_maps inv m1 m2) inv cs3.
+Proof. exact map_stream_twice_pf. Qed.
+Print Assumptions map_stream_twice.
+
+Example map_stream_twice_ex :
+  compose_maps (-1) [2; -1; 0; 0] [3; 1; -1; 0] = [0; -1; -1; 2] /\
+  ordered_map_valid_stream 0 0 5 Fixed [10; 20; 30] [2; -1; 0; 0] (-1) 2 = Ok [30; 0; 10; 10] /\
+  ordered_map_valid_stream 0 0 5 Fixed [30; 0; 10; 10] [3; 1; -1; 0] (-1) 3 = Ok [10; 0; 0; 30] /\
+  ordered_map_valid_stream 0 0 5 Fixed [10; 20; 30] [0; -1; -1; 2] (-1) 1 = Ok [10; 0; 0; 30].
+Proof. vm_compute. repeat split; reflexivity. Qed.
